@@ -6,7 +6,6 @@ import (
 	"fmt"
 	"os"
 	"path/filepath"
-	"sort"
 	"strconv"
 	"strings"
 	"sync"
@@ -39,7 +38,11 @@ func attServer(astype int) (*sock.Server, string, error) {
 	if err != nil {
 		return nil, "", err
 	}
-	s, err := sock.StartServer(sysdBin(), "-mode", "attach", "-astype", strconv.Itoa(astype), "-cwd", dir)
+	cwd := filepath.Join(dir, "w1", "w2", "w3", "w4", "cwd")
+	if err := os.MkdirAll(cwd, 0o755); err != nil {
+		return nil, "", err
+	}
+	s, err := sock.StartServer(sysdBin(), "-mode", "attach", "-astype", strconv.Itoa(astype), "-cwd", cwd)
 	if err != nil {
 		os.RemoveAll(dir)
 		return nil, "", err
@@ -472,17 +475,3 @@ var C15 = &fw.Prop{ID: "C15", Gen: genC15, Exec: execAtt,
 		return cl
 	}}
 
-// ---- C19: names announced by the terminal vs the directory of its phone number ---------------------------------
-
-func listTree(root string) []string {
-	var out []string
-	filepath.Walk(root, func(p string, info os.FileInfo, err error) error {
-		if err == nil && !info.IsDir() {
-			rel, _ := filepath.Rel(root, p)
-			out = append(out, rel)
-		}
-		return nil
-	})
-	sort.Strings(out)
-	return out
-}
